@@ -94,13 +94,13 @@ def run_skeleton(name, blanks, S, html_block=True):
     return got, want
 
 
-@lemma('N3.skeletons', 'C13', quick=[{'sk': n} for n in sorted(SKELETONS)], timeout=400, per_path=60,
+@lemma('N3.skeletons', 'C13', quick=[{'sk': n} for n in sorted(SKELETONS)], thorough=[{'sk': n, 'B': 6, 'timeout': 3000} for n in sorted(SKELETONS)], timeout=400, per_path=60,
        covers=['block_tokenizer.py:tokenize_block', 'block_tokenizer.py:FileWrapper.line_number', 'block_token.py:Quote.read',
                'block_token.py:ListItem.read', 'block_token.py:Table.__init__', 'block_token.py:TableRow.__init__'],
-       note='blank-line counts b_i in 0..3 (solver-enumerated), start line S unbounded; expected numbers come from how the skeleton was assembled')
+       note='blank-line counts b_i in 0..3 (thorough: 0..6; solver-enumerated), start line S unbounded; expected numbers come from how the skeleton was assembled')
 def n3_skeletons(b0: int, b1: int, b2: int, S: int) -> bool:
     """
-    pre: 0 <= b0 <= 3 and 0 <= b1 <= 3 and 0 <= b2 <= 3
+    pre: 0 <= b0 <= P('B', 3) and 0 <= b1 <= P('B', 3) and 0 <= b2 <= P('B', 3)
     pre: blanks_used(b0, b1, b2)
     post: _
     """
